@@ -1,1 +1,103 @@
-// hook body for packed_api (included into /repo under cfg(aho_corasick_verif))
+// Hook body included as `crate::packed::api::verif`.
+use super::*;
+use alloc::{vec::Vec, sync::Arc};
+use crate::packed::{pattern::verif as pv, rabinkarp::verif as rv};
+
+/// Raw dump of a packed searcher.
+#[derive(Clone, Debug)]
+pub struct RawSearcher {
+    pub kind: u8,
+    pub by_id: Vec<Vec<u8>>,
+    pub order: Vec<u32>,
+    pub patterns_minimum_len: usize,
+    pub rk_buckets: Vec<Vec<(usize, u32)>>,
+    pub rk_hash_len: usize,
+    pub rk_hash_2pow: usize,
+    /// "RabinKarp" or the Teddy implementation name, e.g. "SlimSSSE3<2>"
+    pub imp: alloc::string::String,
+    pub minimum_len: usize,
+    pub teddy_buckets: Vec<Vec<u32>>,
+    pub teddy_masks: Vec<([u8; 16], [u8; 16])>,
+    pub teddy_rebuildable: bool,
+}
+
+pub fn to_raw(s: &Searcher) -> RawSearcher {
+    let (kind, by_id, order, pml) = pv::to_raw(&s.patterns);
+    let (rk_buckets, rk_hash_len, rk_hash_2pow) = rv::to_raw(&s.rabinkarp);
+    let mut raw = RawSearcher {
+        kind,
+        by_id,
+        order,
+        patterns_minimum_len: pml,
+        rk_buckets,
+        rk_hash_len,
+        rk_hash_2pow,
+        imp: alloc::string::String::from("RabinKarp"),
+        minimum_len: s.minimum_len,
+        teddy_buckets: Vec::new(),
+        teddy_masks: Vec::new(),
+        teddy_rebuildable: false,
+    };
+    #[cfg(all(target_arch = "x86_64", target_feature = "sse2"))]
+    if let SearchKind::Teddy(ref t) = s.search_kind {
+        let (name, _min, tables) =
+            crate::packed::teddy::verif::builder::x86::describe(t);
+        raw.imp = name;
+        if let Some((b, m)) = tables {
+            raw.teddy_buckets = b;
+            raw.teddy_masks = m;
+            raw.teddy_rebuildable = true;
+        }
+    }
+    raw
+}
+
+/// Rebuild a packed searcher around borrowed statics. `teddy_bytes` is 0 for
+/// a Rabin-Karp-only searcher, otherwise the fingerprint length (1..=4) of a
+/// 128-bit slim Teddy.
+pub fn from_parts(
+    kind: u8,
+    by_id: &'static [&'static [u8]],
+    order: &'static [u32],
+    patterns_minimum_len: usize,
+    rk_buckets: &'static [&'static [rv::Entry]; 64],
+    rk_hash_len: usize,
+    rk_hash_2pow: usize,
+    teddy_bytes: usize,
+    teddy_buckets: &'static [&'static [u32]; 8],
+    teddy_masks: &'static [([u8; 16], [u8; 16])],
+    minimum_len: usize,
+) -> Searcher {
+    let patterns =
+        Arc::new(pv::from_parts(kind, by_id, order, patterns_minimum_len));
+    let rabinkarp = rv::from_parts(
+        Arc::clone(&patterns),
+        rk_buckets,
+        rk_hash_len,
+        rk_hash_2pow,
+    );
+    #[cfg(all(target_arch = "x86_64", target_feature = "sse2"))]
+    let search_kind = {
+        use crate::packed::teddy::verif::builder::x86;
+        match teddy_bytes {
+            0 => SearchKind::RabinKarp,
+            1 => SearchKind::Teddy(x86::slim_ssse3_1(Arc::clone(&patterns), teddy_buckets, teddy_masks)),
+            2 => SearchKind::Teddy(x86::slim_ssse3_2(Arc::clone(&patterns), teddy_buckets, teddy_masks)),
+            3 => SearchKind::Teddy(x86::slim_ssse3_3(Arc::clone(&patterns), teddy_buckets, teddy_masks)),
+            _ => SearchKind::Teddy(x86::slim_ssse3_4(Arc::clone(&patterns), teddy_buckets, teddy_masks)),
+        }
+    };
+    #[cfg(not(all(target_arch = "x86_64", target_feature = "sse2")))]
+    let search_kind = SearchKind::RabinKarp;
+    Searcher { patterns, rabinkarp, search_kind, minimum_len }
+}
+
+/// A packed `FindIter` positioned on an arbitrary span (the public
+/// constructor always starts with the full haystack).
+pub fn find_iter_at<'s, 'h>(
+    searcher: &'s Searcher,
+    haystack: &'h [u8],
+    span: Span,
+) -> FindIter<'s, 'h> {
+    FindIter { searcher, haystack, span }
+}
